@@ -45,12 +45,12 @@ def run_writer(kind, path, retlog, seed, on_event=None, marker=None):
     orig = SqliteDataStore.sync_individual
     tl = threading.local()
 
-    def sync_individual(self, individual):
+    def sync_individual(self, individual, *a, **kw):
         if getattr(tl, "depth", 0):
-            return orig(self, individual)
+            return orig(self, individual, *a, **kw)
         tl.depth = 1
         try:
-            res = orig(self, individual)
+            res = orig(self, individual, *a, **kw)
         finally:
             tl.depth = 0
         # the synchronisation has returned: durable log line, written with one write() on an O_APPEND fd
